@@ -449,7 +449,8 @@ func (w *World) Make(kind string) ([]byte, string) {
 				{fsm.ParamSpaceVal, fsm.ParamNonSignWindow, 0},
 				{fsm.ParamSpaceVal, fsm.ParamMaxSlashPerCommittee, 0},
 				{fsm.ParamSpaceVal, fsm.ParamEarlyWithdrawalPenalty, 101},
-				{fsm.ParamSpaceVal, fsm.ParamMaxCommittees, 0},
+				{fsm.ParamSpaceVal, fsm.ParamMaxCommitteeSize, 0},
+				{fsm.ParamSpaceVal, fsm.ParamMaxCommittees, 101},
 				{fsm.ParamSpaceGov, "daoRewardPercentage", 101},
 				{fsm.ParamSpaceFee, "sendFee", 0},
 			}
